@@ -28,7 +28,7 @@ simple_types: Dict[Optional[str], Union[int, float, complex, str, bool, None]] =
     None: None,
 }
 
-line_length = environ.get("DOCTRANS_LINE_LENGTH", 100)
+line_length = int(environ.get("DOCTRANS_LINE_LENGTH", 100))
 fill = partial(_fill, width=line_length)
 
 
